@@ -36,7 +36,7 @@ ObjNames == {"A", "B", "C", "D", "E", "F", "G", "H"}
 NoCirc == [cells |-> <<>>, nets |-> <<>>, rows |-> <<>>]
 Idle == [active |-> FALSE, obj |-> "", stage |-> "", entry |-> NoCirc, ncb |-> 0, firstDet |-> NoCirc,
          hasDet |-> FALSE, lastDet |-> NoCirc, lastWl |-> 0, lastLB |-> NoCirc, lastUB |-> NoCirc, hasLB |-> FALSE, hasUB |-> FALSE,
-         steps |-> <<>>, cb |-> FALSE, thrower |-> "none", inflight |-> 0, solves |-> 0, lastModel |-> -1]
+         steps |-> <<>>, cb |-> FALSE, thrower |-> "none", inflight |-> 0, solves |-> 0, lastModel |-> -1, tried |-> FALSE]
 NoHist == [s \in {"global", "legalize", "detailed"} |-> [done |-> FALSE, ok |-> FALSE, entry |-> NoCirc, result |-> NoCirc]]
 
 F(p, why, sig) == [p |-> p, why |-> why, sig |-> sig]
@@ -153,6 +153,10 @@ ThrowFails(c) ==
     LET st == call.stage o == call.obj IN
     IF ~IsFinite(c) \/ ~IsFinite(call.entry) THEN FiniteFails(c) ELSE
     ImplNote(c, FALSE) \cup FrameFails(c, st = "global") \cup
+    \* C10 "refused ... and changes nothing": modifications were attempted (and refused) inside a callback that returned normally,
+    \* yet the call then failed by itself
+    (IF call.thrower = "none" /\ call.tried /\ expect # "reject"
+     THEN {F("C10", <<"the call failed after a callback merely attempted refused modifications", Ev.what>>, "refused-changed-call")} ELSE {}) \cup
     (IF call.thrower # "none" THEN {}   \* the harness's own callback threw: covered by the protocol checks (C10)
      ELSE IF expect = "reject"
      THEN (IF call.ncb = 0 /\ Placement(c) = Placement(call.entry) THEN {}
@@ -246,7 +250,8 @@ Setter == /\ Is("Setter")
              /\ fails' = SetterFails(busy, Ev.kind, Ev.valid, Ev.outcome, objs[o], c)
              /\ objs' = [objs EXCEPT ![o] = c]
              /\ base' = IF ~busy /\ Ev.outcome = "ok" THEN c ELSE base
-          /\ l' = l + 1 /\ UNCHANGED <<run, scen, params, call, hist, expect>>
+             /\ call' = IF busy THEN [call EXCEPT !.tried = TRUE] ELSE call
+          /\ l' = l + 1 /\ UNCHANGED <<run, scen, params, hist, expect>>
 
 \* one call of a public mutator of Circuit, with its arguments: the abstract data type decides (object "A" holds the model state)
 ApiEv == /\ Is("Api") /\ ~call.active
